@@ -189,9 +189,10 @@ def c07_scope(res, pid, rng, tier):
             fails.append({"kind": "anonymize_io raised on a recognised line form", "exc": repr(e), "salt": cfg.salt})
             continue
         secrets1 = [h[2] for h in hist] + [None] * len(extra1)
+        res.sample({"salt": cfg.salt, "line_with_secret_A": lines1[0], "line_with_secret_B": lines2[0], "output_A": o1[0], "output_B": o2[0]}, limit=3)
         for i, (a, b) in enumerate(zip(o1, o2)):
             res.evaluations += 1
-            res.nt(("pair", lines1[i].split(" ")[0][:10], i if i >= len(hist) else hist[i][3]))
+            res.nt(("pair", lines1[i][:24], i if i >= len(hist) else hist[i][3]))
             if a != b or g1[i] != g2[i]:
                 fails.append({"kind": "output or INFO+ log depends on the secret's content", "salt": cfg.salt,
                               "line_1": lines1[i], "line_2": lines2[i], "output_1": a, "output_2": b,
@@ -245,6 +246,7 @@ def c08_scope(res, pid, rng, tier):
         except Exception as e:  # noqa
             fails.append({"kind": "anonymize_io raised", "exc": repr(e), "salt": cfg.salt})
             continue
+        res.sample({"salt": cfg.salt, "lines": lines[:3], "outputs": outs[:3]}, limit=3)
         seen = {}      # secret key -> index
         used = {}      # index -> secret key
         for (t, w, s, c), ln, out in zip(hist, lines, outs):
@@ -299,9 +301,10 @@ def c09_scope(res, pid, rng, tier):
         except Exception as e:  # noqa
             fails.append({"kind": "anonymize_io raised", "exc": repr(e), "salt": cfg.salt})
             continue
+        res.sample({"salt": cfg.salt, "lines": lines[:3], "outputs": outs[:3]}, limit=3)
         for (t, w, s, c), ln, out in zip(hist, lines, outs):
             res.evaluations += 1
-            res.nt(("fmt", c, w, t[:8]))
+            res.nt(("fmt", c, w, t[:8], s[:4]))
             rep = extract(out, t, w)
             if rep is None:
                 fails.append({"kind": "text around the secret (quotes, brackets, terminators, words before/after) not kept in place",
